@@ -11,6 +11,7 @@ import json
 import os
 import subprocess
 import sys
+import warnings
 
 import xmlschema
 from xmlschema import XMLSchema10, XMLSchema11, XMLResource, XMLSchemaException, XMLResourceError
@@ -21,18 +22,25 @@ from mc.gen import faults_c11 as G
 
 ID = 'C11'
 TITLE = 'Every input ends in a verdict or a library error; documented limits hold'
-RULE = ('states = distinct (document, position, fault) situations: every catalogue fault (40) at every element / '
+RULE = ('states = distinct (document, position, fault) situations: every catalogue fault (46) at every element / '
         'attribute / text position of 12 seed documents and of the corpus files <= 2 kB (pairs of faults on seeds: '
         'seed-selected slice in quick, all in thorough), every truncation prefix and every single-byte substitution '
         'from {<,&,",00,FF,>} of their serialisations, and every (limit setting, resource mode, size) of the limit '
         'sweeps; transitions = API calls judged (XMLResource construction, is_valid, iter_errors, decode lax, decode '
-        'strict; eager and lazy; XMLSchema10 and XMLSchema11); a case is non-trivial when its (document, fault kind, '
+        'strict; eager and lazy; XMLSchema10 and XMLSchema11; for documents carrying an xsi:schemaLocation / '
+        'xsi:noNamespaceSchemaLocation also the calls that read location hints: module-level xmlschema.is_valid / '
+        'iter_errors / to_dict(lax) with the schema object, schema.iter_errors / decode(lax) with '
+        'use_location_hints=True, XMLResource.get_locations()); a case is non-trivial when its (document, fault kind, '
         'well-formedness, per-call outcome vector) signature is new')
 ASSUMPTIONS = [
     'well-formedness is decided by the stdlib expat binding with namespace processing (the reference); the library '
     'may raise the XMLResourceError family only for documents that reference calls not well-formed',
     'documents are handed over as str (structural faults) or io.BytesIO (truncated / garbled bytes), so text is never '
     'interpreted as a path or URL; defuse/allow/block keep their defaults, no DTD, no network',
+    'location hints in the documents are relative names that do not exist (nowhere.xsd, or the corpus file\'s own '
+    'schema name resolved against the working directory), so hinted loading fails fast and nothing is fetched; the '
+    'hint calls use schema objects of their own; a hint call that fails exactly like its plain counterpart is '
+    'reported under the plain call\'s key only',
     'lazy means XMLResource(source, lazy=True) (lazy depth 1, thin); other lazy depths are property C06',
     '"terminates" means within 20 s per document (all calls together), 120 s per limit-sweep process and 900 s for the '
     'million-element processes',
@@ -70,6 +78,7 @@ def load_doc(docid):
             versions, xsd, doc = G.SEEDS[name]
             entry['data'] = doc.encode('utf-8')
             entry['schemas'] = {v: VERSIONS[v](xsd) for v in versions}
+            entry['schema_src'] = xsd
         else:
             path = os.path.join(REPO, 'tests', 'test_cases', name)
             with open(path, 'rb') as f:
@@ -90,6 +99,7 @@ def load_doc(docid):
                     except Exception:                     # noqa  (building schemas is not the property under check)
                         pass
                 entry['schemas'] = schemas
+                entry['schema_src'] = url
                 if not schemas:
                     entry['skip'] = 'corpus schema not built'
         if not entry['skip']:
@@ -105,9 +115,14 @@ def load_doc(docid):
         entry['skip'] = 'corpus file unusable: %s' % type(e).__name__
     entry['base_bad'] = set()
     if not entry['skip']:
+        # location hints may load schemas into the instance: the hint calls get schema objects of their own
+        entry['hint_schemas'] = {v: VERSIONS[v](entry['schema_src']) for v in entry['schemas']}
         _calls, bad, _labels, _vector, _wf = judge_document(entry['data'], entry['schemas'])
         entry['base'] = (_calls, bad)
         entry['base_bad'] = {(b[0], b[1], b[2]) for b in bad}
+        hcalls, hbad, _hl, _hv = judge_hints(entry['data'], entry['hint_schemas'], _wf, bad)
+        entry['hbase'] = (hcalls, hbad)
+        entry['base_bad'] |= {(b[0], b[1], b[2]) for b in hbad}
     _docs[docid] = entry
     gc.collect()
     gc.freeze()          # schemas are permanent: the per-call collections only look at young objects
@@ -202,6 +217,85 @@ def judge_document(text, schemas, wf=None):
     return calls, bad, labels, ''.join(vector), wf
 
 
+HINT_CALLS_ON = True
+HINT_MARK = b'chemaLocation'
+# label suffix -> the plain call it is a variant of (a hint call that fails exactly like its plain call is the
+# same defect and stays under the plain call's key)
+HINT_PLAIN = {'m.is_valid': 'is_valid', 'm.iter_errors': 'iter_errors', 'm.to_dict_lax': 'decode_lax',
+              'iter_errors_hints': 'iter_errors', 'decode_lax_hints': 'decode_lax',
+              'get_locations': 'resource', 'get_locations_all': 'resource'}
+
+
+def judge_hints(text, schemas, wf, main_bad):
+    """The calls that read xsi:schemaLocation / xsi:noNamespaceSchemaLocation, for documents that carry one:
+    module-level xmlschema.is_valid / iter_errors / to_dict(validation='lax') with the schema object (location
+    hints are on by default there), schema.iter_errors / decode(lax) with use_location_hints=True, and
+    XMLResource.get_locations() (root only and whole document); eager and lazy.  Same oracle as judge_document.
+    Returns (calls, bad, labels, vector); no call is made when the document has no such attribute."""
+    data = text.encode('utf-8') if isinstance(text, str) else text
+    if not HINT_CALLS_ON or HINT_MARK not in data:
+        return 0, [], [], ''
+    if isinstance(text, str):
+        def mk():
+            return text
+    else:
+        def mk():
+            return io.BytesIO(data)
+    failed_plain = {(b[0], b[1], b[2]) for b in main_bad}
+    bad, labels, vector = [], [], []
+    calls = 0
+    gc.disable()
+
+    def attempt(v, mode, api, fn):
+        nonlocal calls
+        calls += 1
+        label = '%s/%s/%s' % (v, mode, api)
+        raised = False
+        try:
+            with warnings.catch_warnings():
+                warnings.simplefilter('ignore')
+                out = fn()
+        except CaseTimeout:
+            raise
+        except BaseException as e:                       # noqa
+            raised = True
+            name = type(e).__name__
+            msg = str(e)[:120].replace('\n', ' ')
+            plain = '%s/%s/%s' % (v, mode, HINT_PLAIN[api])
+            if not isinstance(e, XMLSchemaException):
+                kind, out = 'escape', 'ESCAPE'
+            elif isinstance(e, XMLResourceError):
+                kind, out = ('refused-wellformed' if wf else None), name
+            else:
+                kind, out = 'lax-raised', 'LAXRAISE'
+            if kind and (plain, kind, name) not in failed_plain:
+                bad.append((label, kind, name, msg))
+        if raised:
+            gc.collect()
+        labels.append('h.%s:%s' % (api, out))
+        vector.append(out[:3])
+
+    for mode, lazy in (('e', False), ('l', True)):
+        attempt('-', mode, 'get_locations', lambda: 'locs' if XMLResource(mk(), lazy=lazy).get_locations() else 'nolocs')
+        attempt('-', mode, 'get_locations_all',
+                lambda: 'locs' if XMLResource(mk(), lazy=lazy).get_locations(root_only=False) else 'nolocs')
+    for v in sorted(schemas):
+        s = schemas[v]
+        attempt(v, 'e', 'm.is_valid', lambda: 'valid' if xmlschema.is_valid(mk(), schema=s) else 'invalid')
+        attempt(v, 'l', 'm.is_valid', lambda: 'valid' if xmlschema.is_valid(mk(), schema=s, lazy=True) else 'invalid')
+        attempt(v, 'e', 'm.iter_errors',
+                lambda: 'errors' if list(xmlschema.iter_errors(mk(), schema=s)) else 'noerrors')
+        attempt(v, 'e', 'm.to_dict_lax',
+                lambda: 'errors' if xmlschema.to_dict(mk(), schema=s, validation='lax')[1] else 'noerrors')
+        for mode, lazy in (('e', False), ('l', True)):
+            attempt(v, mode, 'iter_errors_hints', lambda: 'errors' if list(
+                s.iter_errors(XMLResource(mk(), lazy=lazy), use_location_hints=True)) else 'noerrors')
+            attempt(v, mode, 'decode_lax_hints', lambda: 'errors' if s.decode(
+                XMLResource(mk(), lazy=lazy), validation='lax', use_location_hints=True)[1] else 'noerrors')
+    gc.collect()
+    return calls, bad, labels, ''.join(vector)
+
+
 def discrepancies(prefix, bad, calls):
     """Groups the bad calls of one document by (kind, exception type): one key per group."""
     groups = {}
@@ -227,25 +321,29 @@ def run_document(acc, prefix, text, entry, case, sigkind, timeout=20.0):
     try:
         with acc.guard(timeout):
             calls, bad, labels, vector, wf = judge_document(text, entry['schemas'])
+            hcalls, hbad, hlabels, hvector = judge_hints(text, entry['hint_schemas'], wf, bad)
     except CaseTimeout:
         acc.ev()
         acc.out('HANG')
         acc.disc('%s|hang' % prefix, '%s: no verdict within %.0f s' % (prefix, timeout), case)
         return
     acc.ev()
-    acc.st(states=1, transitions=calls, traces=1)
-    acc.nt('%s|%s|%s|%s' % (entry['id'], sigkind, wf, vector))
-    for lab in labels:
+    acc.st(states=1, transitions=calls + hcalls, traces=1)
+    acc.nt('%s|%s|%s|%s%s' % (entry['id'], sigkind, wf, vector, '|' + hvector if hcalls else ''))
+    for lab in labels + hlabels:
         acc.out(lab)
     acc.cnt('documents_wellformed' if wf else 'documents_not_wellformed')
+    if hcalls:
+        acc.cnt('documents_with_location_hints')
     if entry['base_bad']:
         # calls that already fail in the same way on the unfaulted document are reported once, as 'C11|base|...'
         kept = [b for b in bad if (b[0], b[1], b[2]) not in entry['base_bad']]
-        acc.cnt('failing_calls_attributed_to_the_unfaulted_document', len(bad) - len(kept))
-        bad = kept
-    for key, what in discrepancies(prefix, bad, calls):
+        hkept = [b for b in hbad if (b[0], b[1], b[2]) not in entry['base_bad']]
+        acc.cnt('failing_calls_attributed_to_the_unfaulted_document', len(bad) - len(kept) + len(hbad) - len(hkept))
+        bad, hbad = kept, hkept
+    for key, what in discrepancies(prefix, bad, calls) + discrepancies(prefix + '|hints', hbad, hcalls):
         acc.disc(key, what, case)
-    return bad
+    return bad + hbad
 
 
 # --- fault shards -------------------------------------------------------------------------------------
@@ -294,10 +392,12 @@ def run_pairs(acc, entry, tier, seed, lo, hi):
 
 def run_base(acc, entry):
     calls, bad = entry['base']
+    hcalls, hbad = entry['hbase']
     acc.ev()
-    acc.st(states=1, transitions=calls, traces=1)
-    acc.out('base:%s' % ('disc' if bad else 'ok'))
-    for key, what in discrepancies('C11|base|%s' % entry['id'], bad, calls):
+    acc.st(states=1, transitions=calls + hcalls, traces=1)
+    acc.out('base:%s' % ('disc' if bad or hbad else 'ok'))
+    for key, what in (discrepancies('C11|base|%s' % entry['id'], bad, calls)
+                      + discrepancies('C11|base|%s|hints' % entry['id'], hbad, hcalls)):
         acc.disc(key, what, {'kind': 'base', 'doc': entry['id']})
 
 
@@ -596,7 +696,8 @@ def replay(case):
         return judge_sweep(cfg, recs, status)[0]
     entry = load_doc(case['doc'])
     if kind == 'base':
-        return discrepancies('C11|base|%s' % entry['id'], entry['base'][1], entry['base'][0])
+        return (discrepancies('C11|base|%s' % entry['id'], entry['base'][1], entry['base'][0])
+                + discrepancies('C11|base|%s|hints' % entry['id'], entry['hbase'][1], entry['hbase'][0]))
     if kind == 'fault':
         items = [(f, tuple([p[0], tuple(p[1])] + list(p[2:]))) for f, p in case['items']]
         text = fault_text(entry, items)
@@ -609,9 +710,11 @@ def replay(case):
         d = entry['data']
         text = d[:case['off']] + bytes([case['byte']]) + d[case['off'] + 1:]
         prefix = 'C11|subst|%s|off=%d|byte=%02X' % (entry['id'], case['off'], case['byte'])
-    calls, bad, _labels, _vector, _wf = judge_document(text, entry['schemas'])
+    calls, bad, _labels, _vector, wf = judge_document(text, entry['schemas'])
+    hcalls, hbad, _hl, _hv = judge_hints(text, entry['hint_schemas'], wf, bad)
     bad = [b for b in bad if (b[0], b[1], b[2]) not in entry['base_bad']]
-    return discrepancies(prefix, bad, calls)
+    hbad = [b for b in hbad if (b[0], b[1], b[2]) not in entry['base_bad']]
+    return discrepancies(prefix, bad, calls) + discrepancies(prefix + '|hints', hbad, hcalls)
 
 
 def bounds(tier, seed):
